@@ -34,6 +34,10 @@ def run(ctx, rep):
     c03.check_array_recursion(ctx, rep, 'R04.7', names=('untrace',))
     rep.rule('R04.8', 'released exactly once: objects are freed only by the sweep of the collector that manages them, or by free_recursive on a handed-over result')
     c03.check_who_frees(ctx, rep, 'R04.8')
+    rep.rule('R04.9', 'nothing but the returned result outlives the run: no static item can hold a value (it would be released under the static, or twice by two callers)')
+    c03.check_no_static_values(ctx, rep, 'R04.9')
+    rep.rule('R04.10', 'handing the result over terminates and visits each object once: untrace recurses into the elements only after removing the object it was given from the managed list')
+    c03.check_recursion_removes(ctx, rep, 'R04.10')
     check_box_release(ctx, rep, 'R04.6')
     # ---- R04.1 ---------------------------------------------------------------------------------
     news = [(b, t) for b, t in fn.calls() if callee_name(t) == GCN + 'new']
